@@ -892,6 +892,40 @@ fn h_deduplicate_mat2x2_sorted_down() {
 fn h_deduplicate_mat2x2_sorted_both() {
     ck_classify_family_flags(&[2, 2], 4, 3, 12);
 }
+/// occurrences: entry i counts the earlier rows equal to row i; the same with and without truthful marks
+fn ck_occurrences(shape: &[usize], n: usize) {
+    let (a, data, _f, has_keys) = mk(shape, n);
+    kani::assume(truthful(&a) && !has_keys);
+    let plain = plain_of(shape, &data);
+    let rc = plain.row_count();
+    let (oa, op) = (a.occurrences(), plain.occurrences());
+    assert!(op.data.len() == rc && oa.data.len() == rc && same_usize(&op.shape, &[rc]) && same_usize(&oa.shape, &[rc]));
+    let mut i = 0;
+    while i < rc {
+        let mut earlier = 0;
+        let mut j = 0;
+        while j < i {
+            if row_eq(&plain, j, i) {
+                earlier += 1;
+            }
+            j += 1;
+        }
+        assert!(op.data[i] == earlier as f64 && oa.data[i] == earlier as f64);
+        i += 1;
+    }
+}
+//@ id=C08.e3.occurrences.list3 props=C08,C06,C09 level=bounded tier=quick budget=900 bound="byte array of shape [3], all truthful mark sets, no map keys" desc="Array::occurrences counts, for each row, the earlier equal rows; the same with and without truthful sortedness marks"
+#[kani::proof]
+#[kani::unwind(8)]
+fn h_occurrences_list3() {
+    ck_occurrences(&[3], 3);
+}
+//@ id=C08.e3.occurrences.mat2x2 props=C08,C06,C09 level=bounded tier=thorough budget=900 bound="byte array of shape [2, 2], all truthful mark sets, no map keys" desc="the same for a matrix"
+#[kani::proof]
+#[kani::unwind(8)]
+fn h_occurrences_mat2x2() {
+    ck_occurrences(&[2, 2], 4);
+}
 //@ id=C05.e3.meta.mark_helpers props=C05,C09 level=complete tier=quick budget=600 desc="ArrayMeta mark helpers at the bit level: take_sorted_flags / take_value_flags return and clear exactly their group; or_sorted_flags sets only sortedness bits; mark_sorted_* set or clear exactly one bit; reset_flags clears all; an absent meta stays absent unless a bit must be set"
 #[kani::proof]
 fn h_meta_helpers() {
